@@ -382,4 +382,170 @@ Section Lip.
     cbv zeta. unfold Pxf, Pyf, Pzf, Uxf, Uyf, Uzf, Ux, Uy, Uz.
     rewrite rkf_spec, Okf_spec, ikf_spec, Suf_spec, Cuf_spec. repeat split; ring.
   Qed.
+
+  (* ---------------- velocity ---------------- *)
+  (* sharper bounds: sin uk and cos uk are a sine and a cosine *)
+  Lemma LB_Su1 : LB Suf (75 / 10) 1.
+  Proof. apply (LB_rebound _ _ _ _ LB_Su); [lra|]. intros x. rewrite Suf_spec. pose proof (SIN_bound (uk el t e x (atan2 (sinu el t e x) (cosu el t e x)))). apply Rabs_le. lra. Qed.
+  Lemma LB_Cu1 : LB Cuf (75 / 10) 1.
+  Proof. apply (LB_rebound _ _ _ _ LB_Cu); [lra|]. intros x. rewrite Cuf_spec. pose proof (COS_bound (uk el t e x (atan2 (sinu el t e x) (cosu el t e x)))). apply Rabs_le. lra. Qed.
+
+  Definition Vxf (x : R) : R := - sin (Okf x) * cos (ikf x) * Cuf x - cos (Okf x) * Suf x.
+  Definition Vyf (x : R) : R := cos (Okf x) * cos (ikf x) * Cuf x - sin (Okf x) * Suf x.
+  Definition Vzf (x : R) : R := sin (ikf x) * Cuf x.
+
+  Lemma LB_U2 (S C : R -> R) (s1 s2 : R -> R) :
+    LB S (75 / 10) 1 -> LB C (75 / 10) 1 -> LB s1 (2 / 100) 1 -> LB s2 (2 / 100) 1 ->
+    LB (fun x => s1 x * cos (ikf x) * S x + s2 x * C x) (152 / 10) 2.
+  Proof.
+    intros HS HC H1 H2.
+    apply (LB_weaken _ (((2 / 100 * 1 + 1 * (2 / 100)) * 1 + 1 * 1 * (75 / 10)) + (2 / 100 * 1 + 1 * (75 / 10))) (1 * 1 * 1 + 1 * 1)); [|lra|lra].
+    apply LB_add; [|apply LB_mul; assumption].
+    apply LB_mul; [|exact HS]. apply LB_mul; [exact H1|apply (LB_cos_of _ _ _ LB_ik_arg)].
+  Qed.
+
+  Lemma LB_Ux2 : LB Uxf (152 / 10) 2.
+  Proof. unfold Uxf. apply (LB_U2 Suf Cuf (fun x => - sin (Okf x)) (fun x => cos (Okf x))); [exact LB_Su1|exact LB_Cu1|apply LB_opp; trig|trig]. Qed.
+  Lemma LB_Uy2 : LB Uyf (152 / 10) 2.
+  Proof. unfold Uyf. apply (LB_U2 Suf Cuf (fun x => cos (Okf x)) (fun x => sin (Okf x))); [exact LB_Su1|exact LB_Cu1|trig|trig]. Qed.
+  Lemma LB_Uz2 : LB Uzf (152 / 10) 2.
+  Proof.
+    unfold Uzf. apply (LB_weaken _ (2 / 100 * 1 + 1 * (75 / 10)) (1 * 1)); [|lra|lra]. apply LB_mul; [trig|exact LB_Su1].
+  Qed.
+  Lemma LB_Vx2 : LB Vxf (152 / 10) 2.
+  Proof.
+    unfold Vxf. apply (LB_ext (fun x => - sin (Okf x) * cos (ikf x) * Cuf x + (- cos (Okf x)) * Suf x)); [intros; ring|].
+    apply (LB_U2 Cuf Suf (fun x => - sin (Okf x)) (fun x => - cos (Okf x))); [exact LB_Cu1|exact LB_Su1|apply LB_opp; trig|apply LB_opp; trig].
+  Qed.
+  Lemma LB_Vy2 : LB Vyf (152 / 10) 2.
+  Proof.
+    unfold Vyf. apply (LB_ext (fun x => cos (Okf x) * cos (ikf x) * Cuf x + (- sin (Okf x)) * Suf x)); [intros; ring|].
+    apply (LB_U2 Cuf Suf (fun x => cos (Okf x)) (fun x => - sin (Okf x))); [exact LB_Cu1|exact LB_Su1|trig|apply LB_opp; trig].
+  Qed.
+  Lemma LB_Vz2 : LB Vzf (152 / 10) 2.
+  Proof.
+    unfold Vzf. apply (LB_weaken _ (2 / 100 * 1 + 1 * (75 / 10)) (1 * 1)); [|lra|lra]. apply LB_mul; [trig|exact LB_Cu1].
+  Qed.
+
+  (* 1 / r = w / A, and the two rates of the report with their short-period corrections [earth radii / min] *)
+  Lemma sqrtA_bounds : 1 <= sqrt A <= 1415 / 1000.
+  Proof.
+    split.
+    - rewrite <- sqrt_1. apply sqrt_le_1_alt. unfold A. lra.
+    - replace (1415 / 1000) with (sqrt ((1415 / 1000) * (1415 / 1000))) by (rewrite sqrt_square; lra).
+      apply sqrt_le_1_alt. unfold A. lra.
+  Qed.
+  Lemma sqrtp_bounds : 0 <= sqrt p <= 1415 / 1000.
+  Proof.
+    split; [apply sqrt_pos|].
+    replace (1415 / 1000) with (sqrt ((1415 / 1000) * (1415 / 1000))) by (rewrite sqrt_square; lra).
+    apply sqrt_le_1_alt. unfold p, pL. pose proof (eL2_nonneg el t e). unfold A in *. nra.
+  Qed.
+
+  Definition irf (x : R) : R := / A * / (1 - (X * cos x + Y * sin x)).
+  Lemma LB_ir : LB irf (10 / 9) (5 / 3).
+  Proof.
+    unfold irf. assert (HiA : 0 < / A <= 1).
+    { split; [apply Rinv_0_lt_compat; unfold A; lra|]. rewrite <- Rinv_1. apply Rinv_le_contravar; unfold A; lra. }
+    apply (LB_weaken _ (Rabs (/ A) * (10 / 9)) (Rabs (/ A) * (5 / 3))); [apply LB_scal; exact LB_w| |];
+      rewrite Rabs_pos_eq by lra; nra.
+  Qed.
+
+  Definition kn : R := k2 * n el t / p.             (* k2 n / pL *)
+  Lemma n_bounds : 0 < n el t <= ke.
+  Proof.
+    unfold n. fold A. pose proof sqrtA_bounds. assert (HA : 1 <= A) by (unfold A; lra).
+    assert (Hd : 1 <= A * sqrt A) by nra. split.
+    - apply Rdiv_lt_0_compat; [unfold ke; lra|lra].
+    - apply Rmult_le_reg_r with (A * sqrt A); [lra|]. unfold Rdiv. rewrite Rmult_assoc, Rinv_l by lra. unfold ke in *. nra.
+  Qed.
+  Lemma kn_le : Rabs kn <= 5 / 100000.
+  Proof.
+    unfold kn. pose proof n_bounds. pose proof p_low.
+    apply Rle_trans with ((k2 * ke) / (21 / 25)).
+    - apply Rabs_div_bound; [lra|lra|]. rewrite Rabs_mult, (Rabs_pos_eq k2), (Rabs_pos_eq (n el t)) by (unfold k2; lra). unfold k2, ke in *. nra.
+    - unfold k2, ke. lra.
+  Qed.
+
+  Definition rdkf (x : R) : R := ke * sqrt A * ((X * sin x - Y * cos x) * irf x) - kn * (1 - th ^ 2) * s2f x.
+  Definition rfdkf (x : R) : R := ke * sqrt p * irf x + kn * ((1 - th ^ 2) * c2f x - 3 / 2 * (1 - 3 * th ^ 2)).
+
+  Lemma LB_rdk : LB rdkf (118 / 1000) (71 / 1000).
+  Proof.
+    unfold rdkf. pose proof sqrtA_bounds as HsA. pose proof kn_le as Hk. pose proof th2 as Ht.
+    assert (Hc1 : Rabs (ke * sqrt A) <= 10523 / 100000).
+    { rewrite Rabs_pos_eq by (unfold ke; nra). unfold ke. nra. }
+    assert (Hc2 : Rabs (kn * (1 - th ^ 2)) <= 5 / 100000).
+    { rewrite Rabs_mult. assert (Rabs (1 - th ^ 2) <= 1) by (apply Rabs_le; lra). pose proof (Rabs_pos kn). pose proof (Rabs_pos (1 - th ^ 2)). nra. }
+    apply (LB_weaken _ (Rabs (ke * sqrt A) * (2 / 5 * (5 / 3) + 2 / 5 * (10 / 9)) + Rabs (kn * (1 - th ^ 2)) * 15)
+                       (Rabs (ke * sqrt A) * (2 / 5 * (5 / 3)) + Rabs (kn * (1 - th ^ 2)) * 2)).
+    - apply LB_sub; apply LB_scal; [apply LB_mul; [exact LB_es|exact LB_ir]|exact LB_s2].
+    - pose proof (Rabs_pos (ke * sqrt A)). pose proof (Rabs_pos (kn * (1 - th ^ 2))). nra.
+    - pose proof (Rabs_pos (ke * sqrt A)). pose proof (Rabs_pos (kn * (1 - th ^ 2))). nra.
+  Qed.
+
+  Lemma LB_rfdk : LB rfdkf (118 / 1000) (176 / 1000).
+  Proof.
+    unfold rfdkf. pose proof sqrtp_bounds as Hsp. pose proof kn_le as Hk. pose proof th2 as Ht.
+    assert (Hc1 : Rabs (ke * sqrt p) <= 10523 / 100000).
+    { rewrite Rabs_pos_eq by (unfold ke; nra). unfold ke. nra. }
+    assert (Hc2 : Rabs (1 - th ^ 2) <= 1) by (apply Rabs_le; lra).
+    assert (Hc3 : Rabs (3 / 2 * (1 - 3 * th ^ 2)) <= 3) by (apply Rabs_le; lra).
+    apply (LB_weaken _ (Rabs (ke * sqrt p) * (10 / 9) + Rabs kn * (Rabs (1 - th ^ 2) * 15 + 0))
+                       (Rabs (ke * sqrt p) * (5 / 3) + Rabs kn * (Rabs (1 - th ^ 2) * 3 + Rabs (3 / 2 * (1 - 3 * th ^ 2))))).
+    - apply LB_add; apply LB_scal; [exact LB_ir|]. apply LB_sub; [apply LB_scal; exact LB_c2|apply LB_const].
+    - pose proof (Rabs_pos (ke * sqrt p)). pose proof (Rabs_pos kn). pose proof (Rabs_pos (1 - th ^ 2)). nra.
+    - pose proof (Rabs_pos (ke * sqrt p)). pose proof (Rabs_pos kn). pose proof (Rabs_pos (1 - th ^ 2)). pose proof (Rabs_pos (3 / 2 * (1 - 3 * th ^ 2))). nra.
+  Qed.
+
+  (* velocity in km/s: (rdotk U + rfdotk V) * 106.30225 *)
+  Definition vfac : R := XKMPER / aE * min_per_day / 86400.
+  Lemma LB_vel (U V : R -> R) : LB U (152 / 10) 2 -> LB V (152 / 10) 2 ->
+    LB (fun x => rdkf x * vfac * U x + rfdkf x * vfac * V x) 460 100.
+  Proof.
+    intros HU HV.
+    assert (Hf : Rabs vfac = 10630225 / 100000) by (unfold vfac, XKMPER, aE, min_per_day; rewrite Rabs_pos_eq; lra).
+    apply (LB_weaken _ (((118 / 1000 * Rabs vfac + 71 / 1000 * 0) * 2 + (71 / 1000 * Rabs vfac) * (152 / 10))
+                        + ((118 / 1000 * Rabs vfac + 176 / 1000 * 0) * 2 + (176 / 1000 * Rabs vfac) * (152 / 10)))
+                       ((71 / 1000 * Rabs vfac) * 2 + (176 / 1000 * Rabs vfac) * 2)).
+    - apply LB_add; (apply LB_mul; [apply LB_mul; [first [exact LB_rdk|exact LB_rfdk]|apply LB_const]|assumption]).
+    - rewrite Hf. lra.
+    - rewrite Hf. lra.
+  Qed.
+
+  Definition Vxk (x : R) : R := rdkf x * vfac * Uxf x + rfdkf x * vfac * Vxf x.
+  Definition Vyk (x : R) : R := rdkf x * vfac * Uyf x + rfdkf x * vfac * Vyf x.
+  Definition Vzk (x : R) : R := rdkf x * vfac * Uzf x + rfdkf x * vfac * Vzf x.
+
+  Theorem velocity_lipschitz x y :
+    Rabs (Vxk x - Vxk y) <= 460 * Rabs (x - y) /\
+    Rabs (Vyk x - Vyk y) <= 460 * Rabs (x - y) /\
+    Rabs (Vzk x - Vzk y) <= 460 * Rabs (x - y).
+  Proof.
+    repeat split; [apply (LB_lip _ _ _ (LB_vel _ _ LB_Ux2 LB_Vx2))|apply (LB_lip _ _ _ (LB_vel _ _ LB_Uy2 LB_Vy2))|apply (LB_lip _ _ _ (LB_vel _ _ LB_Uz2 LB_Vz2))].
+  Qed.
+
+  Lemma rdkf_spec x : rdkf x = rdotk el t e x.
+  Proof.
+    unfold rdkf, rdotk, rdot, r, ecosE, esinE, irf, kn. rewrite s2f_spec. fold X Y p th.
+    pose proof (LB_bnd _ _ _ LB_ec x) as Hb. apply Rabs_le_between in Hb. pose proof p_low.
+    unfold A. field. repeat split; lra.
+  Qed.
+  Lemma rfdkf_spec x : rfdkf x = rfdotk el t e x.
+  Proof.
+    unfold rfdkf, rfdotk, rfdot, r, ecosE, irf, kn. rewrite c2f_spec. fold X Y p th.
+    pose proof (LB_bnd _ _ _ LB_ec x) as Hb. apply Rabs_le_between in Hb. pose proof p_low.
+    unfold A. field. repeat split; lra.
+  Qed.
+
+  Theorem velocity_is_report x :
+    let u := atan2 (sinu el t e x) (cosu el t e x) in
+    let th' := uk el t e x u in let O := Ok el t e x in let I := ik el t e x in
+    Vxk x = rdotk el t e x * vfac * Ux th' O I + rfdotk el t e x * vfac * Vx th' O I /\
+    Vyk x = rdotk el t e x * vfac * Uy th' O I + rfdotk el t e x * vfac * Vy th' O I /\
+    Vzk x = rdotk el t e x * vfac * Uz th' O I + rfdotk el t e x * vfac * Vz th' O I.
+  Proof.
+    cbv zeta. unfold Vxk, Vyk, Vzk, Uxf, Uyf, Uzf, Vxf, Vyf, Vzf, Ux, Uy, Uz, Vx, Vy, Vz.
+    rewrite rdkf_spec, rfdkf_spec, Okf_spec, ikf_spec, Suf_spec, Cuf_spec. repeat split; ring.
+  Qed.
 End Lip.
